@@ -620,6 +620,11 @@ func (root *Root) resolveField(
 	var ea2 []error
 	switch field.Name {
 	case "__typename":
+		if 0 < len(field.Args) {
+			ea = append(ea, valError(field.Args[0].line, field.Args[0].col, "%s is not an argument to %s", field.Args[0].Arg, field.Name))
+			Errors(ea).in(field.key())
+			return
+		}
 		// The name of the type of the object, t is the interface when the
 		// field is selected on an interface.
 		if ot := root.objectType(obj, t); ot != nil {
